@@ -364,8 +364,16 @@ func (w *world) inflatedInput(s *uSpec, class, s6 string) variant {
 		in := make([]*big.Int, len(s.sources))
 		in[0] = new(big.Int).Add(s.sources[0].Amount, d)
 		pay := firstU(s.dests)
-		if s.name == "ua" || pay < 0 {
-			pay = firstA(s.dests)
+		if pay < 0 {
+			// straight into a plain account; the (larger) transfer fee is paid out of the surplus
+			claimed := new(big.Int).Set(d)
+			for _, src := range s.sources {
+				claimed.Add(claimed, src.Amount)
+			}
+			fee := chainkit.UtxoFeeUinToA(claimed)
+			dests := copyDests(s.dests)
+			dests[0].(*types.AccountDestEntry).Amount = new(big.Int).Sub(claimed, fee)
+			return w.buildUin(s, dests, &signOpts{inAmounts: in})
 		}
 		return w.buildUin(s, bumpDest(s.dests, pay, d), &signOpts{inAmounts: in})
 	}}
